@@ -231,7 +231,7 @@ func checkCase(c Case) *evid.Failure {
 
 // feat summarises a value for the label histogram.
 type feat struct {
-	implPM, implCM, implSingular, implPtr, implRep, implMap                                                       bool
+	implPM, implCM, implPMPM, implCMPM, implSingular, implPtr, implRep, implMap                                   bool
 	neg32, neg64, sint, fixed, float, mapNonEmpty, mapEmpty, mapMsg, depth, longRep, nilPtr, ptrZero, rep, bytes2 bool
 	maxDepth                                                                                                      int
 	maxNum                                                                                                        int
@@ -279,10 +279,15 @@ func features(s *ps.Schema, m *ps.Message, v *ps.Val, depth int, ft *feat) {
 			ft.maxNum = f.Num
 		}
 		if f.Impl != "" && !s.FieldIsZero(f, fv) {
-			if f.Impl == "pm" {
+			switch f.Impl {
+			case "pm":
 				ft.implPM = true
-			} else {
+			case "cm":
 				ft.implCM = true
+			case "pmpm":
+				ft.implPMPM = true
+			case "cmpm":
+				ft.implCMPM = true
 			}
 			switch {
 			case f.K == ps.KMap:
@@ -342,6 +347,15 @@ func features(s *ps.Schema, m *ps.Message, v *ps.Val, depth int, ft *feat) {
 	}
 }
 
+func hasPad(s *ps.Schema) bool {
+	for i := range s.Msgs {
+		if len(s.Msgs[i].Pad) != 0 {
+			return true
+		}
+	}
+	return false
+}
+
 func label(cond bool, name string) {
 	if cond {
 		evid.Label(name)
@@ -349,7 +363,7 @@ func label(cond bool, name string) {
 }
 
 func genOpts() (ps.GenOpts, ps.ValOpts) {
-	g := ps.GenOpts{Impl: true}
+	g := ps.GenOpts{Impl: true, Unexp: true}
 	if evid.KnownActive(clsBigNum) {
 		g.NumCap = 65535
 	}
@@ -468,6 +482,9 @@ func TestWire(t *testing.T) {
 			label(ft.bytes2, "value.bytes>=128(2-byte length)")
 			label(ft.implPM, "value.self-encoding proto.Message struct")
 			label(ft.implCM, "value.self-encoding custom(gogo) struct")
+			label(ft.implPMPM, "value.self-encoding proto.Message struct with ProtoMessage()")
+			label(ft.implCMPM, "value.custom(gogo) struct with ProtoMessage() (= plain struct)")
+			label(hasPad(&s), "type.unexported-fields-interleaved")
 			label(ft.implSingular, "value.self-encoding.singular")
 			label(ft.implPtr, "value.self-encoding.pointer")
 			label(ft.implRep, "value.self-encoding.repeated")
